@@ -395,7 +395,8 @@ def generate(rng, tier, count):
             yield O.generate_one(R, tier)
             continue
         k = R.random()
-        header = C.gen_grid_header(R) if k < 0.7 else None
+        # 12 % Voronoi spaces on their own: their copy re-triangulates (and could re-derive what the constructor derives)
+        header = C.gen_grid_header(R) if k < 0.7 else C.gen_vor_header(R) if k > 0.88 else None
         base = C.gen_c06(R, n_ops=R.randint(2, 10), header=header)
         lines = list(base.lines)
         h = C.Header(lines[0].split())
@@ -423,7 +424,7 @@ def generate(rng, tier, count):
                 lines.append(f"layer add {nm} {R.randrange(5)}")
             for _ in range(R.randint(0, 4)):
                 lines.append(layer_op())
-        if R.random() < 0.4:
+        if R.random() < (0.4 if h.kind == "grid" else 0.7):
             # capacities written by hand after construction (`cell.capacity = k`): the copy must carry them, not the constructor's
             for _ in range(R.randint(1, 2)):
                 lines.append(C.gen_setcap(R, h, names))
